@@ -849,7 +849,7 @@ class X12ContextReader(object):
                                 self.src.check_837_lx = True
                             else:
                                 self.src.check_837_lx = False
-                            self._apply_loop_count(self.x12_map_node, cur_map)
+                            #self._apply_loop_count(self.x12_map_node, cur_map)
                             tpath = '/ISA_LOOP/GS_LOOP/ST_LOOP/HEADER/BHT'
                             self.x12_map_node = cur_map.getnodebypath(tpath)
 
